@@ -69,7 +69,7 @@ CLAIMED["C01"] = ("Structural clauses: (b) kind-set dataflow proves every typed 
 CLAIMED["C19"] = ("(a) every generated numeric accessor of (scheme bytevector) / (srfi 160 prims) that forms data(B)+off is dominated by "
     "checks implying 0 <= off and off + width <= length(B) (width taken from the helper's memcpy size / element type; facts from the "
     "branch conditions, as linear forms); (b) the JSON reader and writer recursion cycles pass through a verified depth-parameter bounder; (c) growable buffers of json.c advance at most their guard's budget; "
-    "(d) doubles compared with SEXP_MAX_FIXNUM-like constants use the operator that survives the constant's rounding; (e) no fixnum is boxed from a double accumulator without a bound <= 2^53 (integers must not lose low bits on the way in); (f) the escape tables of the JSON string writer and reader invert each other and the quote / backslash are escaped; (g) every accessor stub type-checks its vector argument before reading it; (h) a w-byte load at a bounded index in the hand-written decoder helpers is dominated by a bound with the slack of the whole unit. "
+    "(d) doubles compared with SEXP_MAX_FIXNUM-like constants use the operator that survives the constant's rounding; (e) no fixnum is boxed from a double accumulator without a bound <= 2^53 (integers must not lose low bits on the way in); (f) the escape tables of the JSON string writer and reader invert each other and the quote / backslash are escaped; (g) every accessor stub type-checks its vector argument before reading it; (h) a w-byte load at a bounded index in the hand-written decoder helpers is dominated by a bound with the slack of the whole unit; (i) no assignment to an 8/16-bit integer variable in these units adds a constant beyond the variable's range. "
     "Decides 'total on hostile offsets / nesting' for these codecs; encode/decode inverses and the Scheme-level codecs are not decided.",
     "relational guard-dominates-access over the CFG (linear forms of branch conditions vs. interprocedural width summaries of accessor helpers); call-graph SCC depth-bound verification",
     "3 C19")
